@@ -24,6 +24,18 @@ def _dreye():
 def domain_set(draw, count=None, relation=None):
     """2-4 domains: uniform/non-uniform, ascending/unsorted, nested / partially overlapping / touching / disjoint / identical."""
     k = draw(st.integers(2, 4)) if count is None else count
+    if relation in (None, "overlap") and draw(st.integers(0, 5)) == 0:
+        # integer-typed wavelength grids (np.arange(300, 700, 7)): partially overlapping ranges whose overlap is not a multiple of
+        # the coarsest step, so the common domain has non-integer points
+        doms = []
+        for _ in range(k):
+            a, stp = draw(st.integers(280, 340)), draw(st.integers(1, 30))
+            n = draw(st.integers(3, 14))
+            doms.append([float(a + stp * i) for i in range(n)])
+        lo_, hi_ = max(d[0] for d in doms), min(d[-1] for d in doms)
+        if hi_ - lo_ <= 0:
+            doms = [[float(v - doms[i][0] + doms[0][0] + 3 * i) for v in doms[i]] for i in range(k)]
+        return dict(domains=doms, relation="overlap", int_dtype=True)
     n0 = draw(st.integers(2, 12))
     d0 = draw(gens.ascending_domain(n0, lo_gap=1e-2, hi_gap=1e2))
     lo0, hi0 = d0[0], d0[-1]
@@ -109,7 +121,7 @@ def equalize_case(draw, stackable=False):
         arrs, axes_arg, axes = arrs2, ax0, [ax0] * k
     else:
         axes_arg = list(axes)
-    out = dict(domains=doms, arrs=arrs, axes=axes_arg, relation=ds["relation"])
+    out = dict(domains=doms, arrs=arrs, axes=axes_arg, relation=ds["relation"], int_dtype=ds.get("int_dtype", False))
     if stackable:
         nd = np.asarray(arrs[0]).ndim
         out["stack_axis"] = draw(st.integers(-nd, nd - 1))
@@ -189,9 +201,14 @@ def _check_equalized(case, new_dom, new_arrs, labs_extra=()):
     return labs + list(labs_extra)
 
 
+def _doms(case):
+    """the domains as arrays: float64, or int64 for integer-typed grids"""
+    return [np.asarray(d, dtype=float).astype(np.int64 if case.get("int_dtype") else float) for d in case["domains"]]
+
+
 def body_equalize(case):
     dreye = _dreye()
-    doms = [np.asarray(d, dtype=float) for d in case["domains"]]
+    doms = _doms(case)
     arrs = [np.asarray(a, dtype=float) for a in case["arrs"]]
     doms0 = [d.copy() for d in doms]
     arrs0 = [a.copy() for a in arrs]
@@ -227,7 +244,7 @@ def body_equalize(case):
 
 def body_stack(case):
     dreye = _dreye()
-    doms = [np.asarray(d, dtype=float) for d in case["domains"]]
+    doms = _doms(case)
     arrs = [np.asarray(a, dtype=float) for a in case["arrs"]]
     lo, hi, step0 = overlap_rule(case["domains"])
     try:
@@ -264,7 +281,7 @@ def capture_case(draw):
     ns = draw(st.integers(1, 4))
     F = draw(gens.array((nf, len(fd)), 0.0, 10.0))
     S = draw(gens.array((ns, len(sd)), 0.0, 10.0))
-    return dict(domains=[fd, sd], filters=F, signals=S, relation=ds["relation"])
+    return dict(domains=[fd, sd], filters=F, signals=S, relation=ds["relation"], int_dtype=ds.get("int_dtype", False))
 
 
 def body_capture(case):
@@ -276,8 +293,9 @@ def body_capture(case):
     identical = np.array_equal(np.asarray(fd), np.asarray(sd))
     try:
         with calling("ReceptorEstimator.capture(domain=)", allow=(ValueError,)):
-            est = dreye.ReceptorEstimator(F, domain=np.asarray(fd, dtype=float))
-            got = np.asarray(est.capture(S, domain=np.asarray(sd, dtype=float)))
+            fd_a, sd_a = _doms(case)
+            est = dreye.ReceptorEstimator(F, domain=fd_a)
+            got = np.asarray(est.capture(S, domain=sd_a))
     except ValueError:
         if not identical and hi - lo < step0 * (1 + 1e-9):
             return ["rejected"]
